@@ -22,13 +22,26 @@ package literal
 
 //@ props C15 C08 C05
 //@ func (t Type) String
+//@   heapfun
 //@   ensures[name] result == typeName(t)
 
 //@ func (l *Literal) String
+//@   heapfun
 //@   requires wfLit(l)
 //@   opt axioms type-strof
 //@   ensures[text] result == litText(l.t, l.v)
 
+// ToComparableString: numbers are printed zero-padded to 32 characters (fmt's %032d / %032f),
+// everything else as String does.
+//@ spec def cmpText(t Int, v Any) String = ite(t == 1, frameText(fmtany(v, "%032d"), "int64"), ite(t == 2, frameText(fmtany(v, "%032f"), "float64"), litText(t, v)))
+//@ props C12 C13 C08
+//@ func (l *Literal) ToComparableString
+//@   heapfun
+//@   requires wfLit(l)
+//@   opt axioms type-strof
+//@   ensures[text] result == cmpText(l.t, l.v)
+
+//@ props C15 C08 C05
 //@ func (b *unboundBuilder) Parse
 //@   opt terminates
 //@   opt replay-recv &unboundBuilder{}
@@ -59,6 +72,7 @@ package literal
 //@   ensures[well-formed] result0 != nil ==> wfLit(result0)
 
 //@ func (l *Literal) Type
+//@   heapfun
 //@   requires l != nil
 //@   ensures result == l.t
 
